@@ -21,7 +21,7 @@ func TestC13(t *testing.T) {
 	mon.Main(t, mon.Check{
 		ID:    "C13",
 		Level: "exploration",
-		Rule:  "real gbn code in virtual time, keepalive on. (D) dead peer: after some acknowledged traffic the transport goes silent (incoming link blackholed, or both) at an instant swept over offsets 0..2*ping after the last activity and over exact multiples of the ping interval; at that instant the application queues k in {0,1,N-1,N,N+5} messages; a small real-time slice repeats the dead-peer case with a slow transport (every write takes 0.8 ping intervals, in half of the cases first with a live peer whose acknowledgements arrive while ticks are pending, so the send loop is hardly ever parked when a keepalive timer fires; it cannot run in a bubble because Close then waits for a write while other goroutines wait on its sync.Once); ping/pong in {(5s,3s),(7s,3s),(1s,1s),(100ms,50ms),(30s,10s),(1s,3s)}, N in {1,3,20,254}, static and adaptive timeouts. Oracle: the endpoint closes itself within ping+pong+10*resendTimeout(at closure)+1s of the silence instant, and its blocked callers return. (H) healthy idle: both ends keepalive (mailbox's 7s/3s vs 5s/3s and others), round-trip time in {0, pong/2, pong-20ms}, 1-24 h of virtual idleness, a third of them with the ACK of a keepalive ping lost now and then (the resent ping is answered by a NACK within the pong timeout); oracle: no endpoint closes and ping packets were seen on the wire. A case whose bubble freezes (a goroutine waits on a mutex, which stops the virtual clock) is repeated on the real clock when its bound is below 100 s and judged there. Non-trivial = silence was injected while the connection was open / pings observed; distinct = (kind, ping, pong, N, backlog class, one/two-sided, timeout mode, offset bucket).",
+		Rule:  "real gbn code in virtual time, keepalive on. (D) dead peer: after some acknowledged traffic the transport goes silent (incoming link blackholed, or both) at an instant swept over offsets 0..2*ping after the last activity and over exact multiples of the ping interval; at that instant the application queues k in {0,1,N-1,N,N+5} messages; a small real-time slice repeats the dead-peer case with a slow transport (every write takes 0.8 ping intervals, in half of the cases first with a live peer whose acknowledgements arrive while ticks are pending, so the send loop is hardly ever parked when a keepalive timer fires; it cannot run in a bubble because Close then waits for a write while other goroutines wait on its sync.Once); ping/pong in {(5s,3s),(7s,3s),(1s,1s),(100ms,50ms),(30s,10s),(1s,3s)}, N in {1,3,20,254}, static and adaptive timeouts. Oracle: the endpoint closes itself within ping+pong+10*resendTimeout(at closure)+1s of the silence instant, and its blocked callers return. (H) healthy idle: both ends keepalive (mailbox's 7s/3s vs 5s/3s and others), round-trip time in {0, pong/2, pong-20ms}, 1-24 h of virtual idleness, a third of them with the ACK of a keepalive ping lost now and then (the resent ping is answered by a NACK within the pong timeout); oracle: no endpoint closes and ping packets were seen on the wire. One case in nineteen is a healthy-idle case of the edge family N=1, static 1 s resend, both ends pinging every 1 s with a 3 s pong timeout over a 2.98 s round trip, 24 h (pings always outstanding, ticks coinciding with arrivals). A case whose bubble freezes (a goroutine waits on a mutex, which stops the virtual clock) is repeated on the real clock when its bound is below 100 s and judged there. A third of the cases run over links whose Send/Recv calls take a PRNG-chosen 1 ns .. 200 µs (schedule perturbation around coinciding timer expiries and arrivals). Non-trivial = silence was injected while the connection was open / pings observed; distinct = (kind, ping, pong, N, backlog class, one/two-sided, timeout mode, offset bucket).",
 		Assumptions: []string{
 			"detection bound uses the connection's own (possibly boosted) resend timeout read through the hook: the send loop may sit in the resend sync wait (3x resend timeout) when the timers fire",
 		},
@@ -167,6 +167,10 @@ func frozenBubble(c *mon.Case, f func(), guard time.Duration) bool {
 }
 
 func runC13(c *mon.Case) {
+	if c.Idx%19 == 7 {
+		runC13HealthyKind(c, true)
+		return
+	}
 	if c.Idx%75 == 74 {
 		runC13SlowWrites(c)
 		return
@@ -227,6 +231,12 @@ func runC13Dead(c *mon.Case) {
 	default:
 		offset = k.ping + time.Duration(rng.Int63n(int64(k.pong)+1)) // between ping and pong expiry
 		obucket = "ping..pong"
+	}
+	if rng.Intn(3) == 0 {
+		// transport calls that take 1 ns .. 200 µs: what coincides with a
+		// timer expiry is handled just before or just after it
+		conf.JitterMax = []time.Duration{time.Nanosecond, time.Microsecond, 200 * time.Microsecond}[rng.Intn(3)]
+		conf.JitterSeed = rng.Int63()
 	}
 	rep := map[string]any{"kind": "D", "conf": conf.String(), "endpoint": map[bool]string{true: "server", false: "client"}[testServer],
 		"backlog": backlog, "two_sided": twoSided, "pre_messages": pre, "silence_offset": offset.String()}
@@ -364,7 +374,14 @@ func runC13Dead(c *mon.Case) {
 	}
 }
 
-func runC13Healthy(c *mon.Case) {
+func runC13Healthy(c *mon.Case) { runC13HealthyKind(c, false) }
+
+// runC13HealthyKind: edge selects the configuration family in which the ping
+// interval is shorter than the round trip and the round trip is just below the
+// pong timeout, with a window of one: pings are nearly always outstanding, the
+// window is nearly always full, and ticks keep coinciding with arrivals (this
+// is where defect D21 showed, once in about thirty 24-hour runs).
+func runC13HealthyKind(c *mon.Case, edge bool) {
 	rng := c.Rng
 	kc := c13PP[rng.Intn(len(c13PP))]
 	ks := kc
@@ -394,7 +411,23 @@ func runC13Healthy(c *mon.Case) {
 	if ackLoss {
 		conf.Static, conf.Resend = true, time.Second
 	}
-	rep := map[string]any{"kind": "H", "ack_loss": ackLoss, "conf": conf.String(), "rtt": rtt.String(), "idle": idle.String(), "pre_messages": pre}
+	if rng.Intn(3) == 0 && rtt < minPong-time.Millisecond {
+		conf.JitterMax = []time.Duration{time.Nanosecond, time.Microsecond, 200 * time.Microsecond}[rng.Intn(3)]
+		conf.JitterSeed = rng.Int63()
+	}
+	if edge {
+		kc, ks = pp{time.Second, 3 * time.Second}, pp{time.Second, 3 * time.Second}
+		minPong = 3 * time.Second
+		rtt = 2980 * time.Millisecond
+		conf = eng.GBNConf{N: 1, PingC: kc.ping, PongC: kc.pong, PingS: ks.ping, PongS: ks.pong, Lat: rtt / 2,
+			Static: true, Resend: time.Second, HSTimeout: 2*rtt + 2*time.Second}
+		idle, ackLoss = 24*time.Hour, false
+		if j := rng.Intn(4); j > 0 {
+			conf.JitterMax = []time.Duration{time.Nanosecond, time.Microsecond, 200 * time.Microsecond}[j-1]
+			conf.JitterSeed = rng.Int63()
+		}
+	}
+	rep := map[string]any{"kind": "H", "edge_family": edge, "ack_loss": ackLoss, "conf": conf.String(), "rtt": rtt.String(), "idle": idle.String(), "pre_messages": pre}
 	var pings atomic.Int64
 	if frozenBubble(c, func() {
 		ctx, cancel := context.WithCancel(context.Background())
